@@ -1,4 +1,5 @@
 import Proofs.WriteLoop
+import Proofs.Wire
 /-! # C08 — a connection carries whole packets only, under short writes
 
 Model: `Model.writeTo`, `Model.writeBuffersTo` (client.go write loops incl.
@@ -64,5 +65,102 @@ theorem C08_connection_whole_packets (c : WConn) (ps : List (List Bytes)) :
 example : (writeBuffersTo { policy := [⟨3, .timeout⟩] } [[1, 2, 3, 4, 5, 6], [7, 8, 9]]).1.log = [1, 2, 3, 4, 5, 6, 7, 8, 9] ∧
     (writeBuffersTo { policy := [⟨3, .timeout⟩] } [[1, 2, 3, 4, 5, 6], [7, 8, 9]]).2 = .ok := by decide
 example : (writeTo { policy := [⟨2, .timeout⟩, ⟨1, .hard⟩] } [1, 2, 3, 4, 5]).1.log = [1, 2, 3] := by decide
+
+/-! ## The session model's writes go through these loops: per call site, on the connection in use -/
+
+/-- a write of the session model on its current connection puts a prefix of the packet on that connection (the whole
+packet exactly when it reports success), and the wire event carries exactly those bytes -/
+theorem C08_session_write_prefix (s : S) (c : Conn) (p : Bytes) (hc : s.conn = some c) (ho : c.rd.closed = false) :
+    ∃ c' q, (s.connWrite (writeTo · p)).1.conn = some c' ∧ c'.id = c.id ∧ c'.log = c.log ++ q ∧ q <+: p ∧
+      ((s.connWrite (writeTo · p)).2 = .ok → q = p) ∧
+      (s.connWrite (writeTo · p)).1.evs = (if q.isEmpty then s.evs else Ev.w c.id q :: s.evs) := by
+  obtain ⟨q, h1, h2, h3⟩ := C08_writeTo_prefix c.wconn p
+  have hlog : c.wconn.log = c.log := rfl
+  rw [hlog] at h1
+  obtain ⟨e1, e2, e3⟩ := connWrite_open s c (writeTo · p) hc ho
+  have hd : (writeTo c.wconn p).1.log.drop c.log.length = q := by rw [h1]; simp
+  refine ⟨_, q, e2, rfl, h1, h2, ?_, ?_⟩
+  · rw [e1]; exact h3
+  · rw [e3]; simp only [hd]
+
+/-- the same for a packet written from several buffers (PUBLISH: head, topic, payload) -/
+theorem C08_session_writeBuffers_prefix (s : S) (c : Conn) (bs : List Bytes) (hc : s.conn = some c) (ho : c.rd.closed = false) :
+    ∃ c' q, (s.connWrite (writeBuffersTo · bs)).1.conn = some c' ∧ c'.id = c.id ∧ c'.log = c.log ++ q ∧ q <+: bs.flatten ∧
+      ((s.connWrite (writeBuffersTo · bs)).2 = .ok → q = bs.flatten) ∧
+      (s.connWrite (writeBuffersTo · bs)).1.evs = (if q.isEmpty then s.evs else Ev.w c.id q :: s.evs) := by
+  obtain ⟨q, h1, h2, h3⟩ := C08_writeBuffersTo_prefix c.wconn bs
+  have hlog : c.wconn.log = c.log := rfl
+  rw [hlog] at h1
+  obtain ⟨e1, e2, e3⟩ := connWrite_open s c (writeBuffersTo · bs) hc ho
+  have hd : (writeBuffersTo c.wconn bs).1.log.drop c.log.length = q := by rw [h1]; simp
+  refine ⟨_, q, e2, rfl, h1, h2, ?_, ?_⟩
+  · rw [e1]; exact h3
+  · rw [e3]; simp only [hd]
+
+/-- a connection that was closed (by a failed write, by Close, by the read routine) is never written again -/
+theorem C08_closed_connection_silent (s : S) (c : Conn) (f : WConn → WConn × WOut) (hc : s.conn = some c)
+    (hcl : c.rd.closed = true) : s.connWrite f = (s, .closed) := by
+  unfold S.connWrite
+  simp [hc, hcl]
+
+/-- after a write that failed, the request paths close the connection (unless it turned out to be closed already, which
+`connWrite` records): together with `C08_closed_connection_silent` nothing follows an incomplete packet -/
+theorem C08_failed_write_closes (s : S) (c : Conn) (o : WOut) (hc : s.conn = some c) (hcl : o = .closed → c.rd.closed = true) :
+    ∃ c', (s.afterWriteErr o).1.conn = some c' ∧ c'.id = c.id ∧ c'.log = c.log ∧ c'.rd.closed = true := by
+  unfold S.afterWriteErr
+  by_cases ho : o = .closed
+  · subst ho; exact ⟨c, by simp [hc], rfl, rfl, hcl rfl⟩
+  · have : (o == WOut.closed) = false := by cases o <;> simp_all
+    simp only [this, Bool.false_eq_true, if_false]
+    unfold S.closeConn
+    simp only [hc]
+    by_cases hcl : c.rd.closed = true
+    · exact ⟨c, by simp [hcl, hc], rfl, rfl, hcl⟩
+    · simp only [hcl, Bool.false_eq_true, if_false]
+      exact ⟨{ c with rd := { c.rd with closed := true } }, by simp [S.emit], rfl, rfl, rfl⟩
+
+/-- the read routine's acknowledgement write: whatever the connection does with it, a prefix of the packet goes out on
+the current connection; it is the whole packet when the call reports success, and otherwise (the `unsupported` answers
+aside, where the model stops following) the connection is closed behind the incomplete packet -/
+theorem C08_reader_write (s : S) (c : Conn) (p : Bytes) (hc : s.conn = some c) (ho : c.rd.closed = false) :
+    ∃ c' q, (s.readerWrite p).1.conn = some c' ∧ c'.id = c.id ∧ c'.log = c.log ++ q ∧ q <+: p ∧
+      ((s.readerWrite p).2 = none → q = p) ∧
+      (∀ e, (s.readerWrite p).2 = some e → e ≠ mkErr ["unsupported"] → q = [] ∨ c'.rd.closed = true) := by
+  unfold S.readerWrite
+  cases hl : s.link
+  case closed => exact ⟨c, [], hc, rfl, by simp, by simp, by simp, fun _ _ _ => Or.inl rfl⟩
+  case down => exact ⟨c, [], hc, rfl, by simp, by simp, by simp, fun _ _ _ => Or.inl rfl⟩
+  case pending => exact ⟨c, [], hc, rfl, by simp, by simp, by simp, fun _ _ _ => Or.inl rfl⟩
+  case live =>
+    simp only
+    by_cases hg : (s.held.isSome || s.gateAhead) = true
+    · simp only [hg, if_true]
+      exact ⟨c, [], hc, rfl, by simp, by simp, by simp, fun e he hne => absurd (Option.some.inj he).symm hne⟩
+    · simp only [hg, Bool.false_eq_true, if_false]
+      obtain ⟨c1, q, h1, h2, h3, h4, h5, _⟩ := C08_session_write_prefix s c p hc ho
+      obtain ⟨e1, e2, _⟩ := connWrite_open s c (writeTo · p) hc ho
+      rcases hw : s.connWrite (writeTo · p) with ⟨s1, o⟩
+      rw [hw] at h1 h5 e1 e2
+      simp only at h1 h5 e1 e2
+      by_cases hok : o = .ok
+      · subst hok
+        exact ⟨c1, q, by simpa using h1, h2, h3, h4, fun _ => h5 rfl, by simp⟩
+      · have hok' : (o == WOut.ok) = false := by cases o <;> simp_all
+        simp only [hok', Bool.false_eq_true, if_false]
+        by_cases hga : o = .gate
+        · subst hga
+          exact ⟨c1, q, by simpa using h1, h2, h3, h4, by simp, fun e he hne => absurd (by simpa using he.symm) hne⟩
+        · have hga' : (o == WOut.gate) = false := by cases o <;> simp_all
+          simp only [hga', Bool.false_eq_true, if_false]
+          have hcl : o = .closed → c1.rd.closed = true := by
+            intro h; subst h
+            rw [h1] at e2
+            have := Option.some.inj e2
+            rw [this]; simp [← e1]
+          obtain ⟨c2, g1, g2, g3, g4⟩ := C08_failed_write_closes s1 c1 o h1 hcl
+          exact ⟨c2, q, g1, g2.trans h2, g3.trans h3, h4, by simp, fun _ _ _ => Or.inr g4⟩
+
+/-- non-vacuity: an open connection that takes three bytes and then fails leaves a proper prefix and is closed -/
+example : (writeTo { policy := [{ accept := 3, out := .hard }], log := [] } [1,2,3,4,5]).1.log = [1,2,3] := by decide
 
 end Model
